@@ -625,18 +625,37 @@ theorem rowPlan_err (poly : List Pt) (c s ySpace : Rat) (e : PyErr) (hp : rowPla
       · rw [if_neg h2] at hp; simp at hp
   · simp at hp; subst hp; simp
 
-theorem rowSeg_dir (c s : Rat) (h : c * c + s * s = 1) (lowest : Pt) (sp : Rat) (hsp : sp ≠ 0) (k : Nat) :
+theorem verticalRowRatio_nonneg : 0 ≤ Gen.RowWise.verticalRowRatio := by
+  unfold Gen.RowWise.verticalRowRatio; norm_num
+
+/-- The rotation is not in the band where a row is declared vertical without being vertical. -/
+def NoBand (c s : Rat) : Prop := c = 0 ∨ Gen.RowWise.verticalRowRatio * |s| < |c|
+
+theorem rowSeg_dir (c s : Rat) (h : c * c + s * s = 1) (hband : NoBand c s) (lowest : Pt) (sp : Rat) (hsp : sp ≠ 0) (k : Nat) :
     RowDir c s (rowSeg lowest (-1 * sp * s) (sp * c) k) := by
   unfold rowSeg
   simp only
+  have hK := verticalRowRatio_nonneg
   by_cases hc : c = 0
   · have hs2 : s * s = 1 := by rw [hc] at h; linarith
     have hs0 : s ≠ 0 := by intro h0; rw [h0] at hs2; norm_num at hs2
-    rw [if_pos (by rw [hc]; ring)]
+    rw [if_pos (by
+      rw [hc, mul_zero, ratAbs_eq_abs, ratAbs_eq_abs, abs_zero]
+      exact mul_nonneg hK (abs_nonneg _))]
     refine ⟨Gen.RowWise.pointShift / s, div_ne_zero pointShift_ne hs0, ?_, ?_⟩
     · simp [hc]
     · simp; field_simp
-  · rw [if_neg (mul_ne_zero hsp hc)]
+  · have hlt : Gen.RowWise.verticalRowRatio * |s| < |c| := by
+      rcases hband with h0 | h0
+      · exact absurd h0 hc
+      · exact h0
+    rw [if_neg (by
+      rw [ratAbs_eq_abs, ratAbs_eq_abs, not_le]
+      have e1 : |sp * c| = |sp| * |c| := abs_mul sp c
+      have e2 : |-1 * sp * s| = |sp| * |s| := by rw [neg_one_mul, neg_mul, abs_neg, abs_mul]
+      rw [e1, e2]
+      have hsp0 : 0 < |sp| := abs_pos.mpr hsp
+      nlinarith)]
     refine ⟨Gen.RowWise.pointShift / c, div_ne_zero pointShift_ne hc, ?_, ?_⟩
     · simp; field_simp
     · simp; field_simp
@@ -644,7 +663,7 @@ theorem rowSeg_dir (c s : Rat) (h : c * c + s * s = 1) (lowest : Pt) (sp : Rat) 
 /-- **Generation terminates** (model): whatever the outline, `gen_borehole_config` never runs into
     the unbounded `distribute` loop. -/
 theorem genBoreholeConfig_nodiv (poly : List Pt) (ySpace xSpace c s tol : Rat) (h : c * c + s * s = 1)
-    (hs : 0 < xSpace) (htol : 0 ≤ tol) :
+    (hband : NoBand c s) (hs : 0 < xSpace) (htol : 0 ≤ tol) :
     genBoreholeConfig poly ySpace xSpace c s tol ≠ .error .other := by
   unfold genBoreholeConfig
   cases hp : rowPlan poly c s ySpace with
@@ -667,7 +686,7 @@ theorem genBoreholeConfig_nodiv (poly : List Pt) (ySpace xSpace c s tol : Rat) (
       apply hnr0
       rw [hnr, hd, zero_div]; exact (Int.floor_zero : ⌊(0 : ℚ)⌋ = 0)
     have hdir : ∀ k, RowDir c s (rowSeg lowest rs0 rs1 k) := by
-      intro k; rw [h0, h1]; exact rowSeg_dir c s h lowest _ hsp k
+      intro k; rw [h0, h1]; exact rowSeg_dir c s h hband lowest _ hsp k
     have := rowsLoop_nodiv poly c s tol xSpace h hs htol lowest rs0 rs1 hdir (List.range (numRows + 1).toNat) []
     cases hres : rowsLoop poly c s tol xSpace lowest rs0 rs1 (List.range (numRows + 1).toNat) [] with
     | error e => rw [hres] at this; simpa using this
@@ -1041,7 +1060,7 @@ def RowsSimple (poly : List Pt) (ySpace c s tol : Rat) : Prop :=
     the outline satisfy, up to `tol (|a| + |b|)` — i.e. it lies in the convex hull of the outline
     widened by the intersection tolerance (for a convex outline: inside or on the outline). -/
 theorem genBoreholeConfig_inside (poly : List Pt) (ySpace xSpace c s tol : Rat) (h : c * c + s * s = 1)
-    (hs : 0 < xSpace) (htol : 0 ≤ tol) (hsimple : RowsSimple poly ySpace c s tol) (a b β : Rat)
+    (hband : NoBand c s) (hs : 0 < xSpace) (htol : 0 ≤ tol) (hsimple : RowsSimple poly ySpace c s tol) (a b β : Rat)
     (hpoly : ∀ v ∈ poly, a * v.1 + b * v.2 ≤ β) (field : List Pt)
     (hr : genBoreholeConfig poly ySpace xSpace c s tol = .ok field) :
     ∀ p ∈ field, a * p.1 + b * p.2 ≤ β + tol * (|a| + |b|) := by
@@ -1063,7 +1082,7 @@ theorem genBoreholeConfig_inside (poly : List Pt) (ySpace xSpace c s tol : Rat) 
       apply hnr0
       rw [hnr, hd, zero_div]; exact (Int.floor_zero : ⌊(0 : ℚ)⌋ = 0)
     have hdir : ∀ k, RowDir c s (rowSeg lowest rs0 rs1 k) := by
-      intro k; rw [h0, h1]; exact rowSeg_dir c s h lowest _ hsp k
+      intro k; rw [h0, h1]; exact rowSeg_dir c s h hband lowest _ hsp k
     cases hres : rowsLoop poly c s tol xSpace lowest rs0 rs1 (List.range (numRows + 1).toNat) [] with
     | error e => rw [hres] at hr; simp at hr
     | ok acc =>
@@ -1596,7 +1615,11 @@ theorem rect_rowStep (x0 y0 W H sp tol P y : Rat) (nx : Nat) (acc : List Pt) (hs
 theorem rect_rowSeg (x0 y0 st : Rat) (k : Nat) (hst : st ≠ 0) :
     rowSeg (x0, y0) 0 st k
       = ⟨x0, y0 + (k : Rat) * st, x0 + Gen.RowWise.pointShift, y0 + (k : Rat) * st⟩ := by
-  simp [rowSeg, hst]
+  unfold rowSeg
+  have hne : ¬ ratAbs st ≤ Gen.RowWise.verticalRowRatio * ratAbs 0 := by
+    rw [ratAbs_eq_abs, ratAbs_eq_abs, abs_zero, mul_zero, not_le]
+    exact abs_pos.mpr hst
+  simp [hne]
 
 theorem rect_row_head (x0 st y : Rat) (n : Nat) (acc : List Pt) :
     ((rect_row x0 st y (n + 1)).reverse ++ acc).head? = some (x0 + (n : Rat) * st, y) := by
